@@ -20,4 +20,4 @@ Extraction "model.ml"
   Jacobian.apply_writes Jacobian.omp_blocks Jacobian.J_fwd Jacobian.J_rev
   VecSplit.stmt_counts VecSplit.reduce_counts VecSplit.align_off VecSplit.rows_ok
   Expr.value_and_gradient Expr.sem Expr.tangent Expr.n_active Expr.n_scratch Expr.n_arrays Expr.mkFOps Program.exec Program.dexec Program.instantiate Gen_Ops.unary_functions ArrayStmt.aexec ArrayStmt.denoted
-  Protocol.pstep Protocol.pinit Protocol.obs_gradient Protocol.obs_jacobian Protocol.obs_counts.
+  Protocol.pstep Protocol.pinit Protocol.obs_gradient Protocol.obs_gradient_error Protocol.obs_jacobian Protocol.obs_counts.
